@@ -13,7 +13,7 @@ import (
 )
 
 func init() {
-	register("C04", checkC04, "Every method of packet.Registers is abstractly interpreted under the struct invariant that its only constructor NewRegisters establishes (the constructor's success state and field values are the entry state and receiver of the method analysis; fields with other writers are taken as arbitrary; an unexported getter with extra plain-integer parameters is analysed once per distinct tuple of constants its call sites pass). R4.1: every index/slice of the payload reachable from an accessor is proven in bounds against len for all addresses, window positions and string lengths, with rule W on narrow-typed address arithmetic. R4.4: on every success return of a raw getter the facts entail start <= address and address+W <= start+count over the integers, and every error return is infeasible for an in-window access. R4.2: the bytes returned are payload[2*(address-start)+pi(j)] with pi the identity or the word reversal exactly on the LowWordFirst branch. R4.3: each typed accessor calls the getter of its width, decodes with the byte order its flag selects and WithByteOrder variants fall back to the default order iff the argument is 0. Numerical identity of decoded floats is not decided. R4.5 no access path, including Field.ExtractFrom, writes payload-derived memory or keeps decoder state (C13 effect analysis). R4.6 every AsRegisters hands (payload field, request start address) to NewRegisters unchanged. R4.5 is also rooted at the builder's extraction loop (the configuration setter must not be called on the shared Registers while fields are extracted). R4.7 the sub-register accessors (bit/byte results, no order parameter) reach nothing that reads the ByteOrder field of Registers.")
+	register("C04", checkC04, "Every method of packet.Registers is abstractly interpreted under the struct invariant that its only constructor NewRegisters establishes (the constructor's success state and field values are the entry state and receiver of the method analysis; fields with other writers are taken as arbitrary; an unexported getter with extra plain-integer parameters is analysed once per distinct tuple of constants its call sites pass). R4.1: every index/slice of the payload reachable from an accessor is proven in bounds against len for all addresses, window positions and string lengths, with rule W on narrow-typed address arithmetic. R4.4: on every success return of a raw getter the facts entail start <= address and address+W <= start+count over the integers, and every error return is infeasible for an in-window access. R4.2: the bytes returned are payload[2*(address-start)+pi(j)] with pi the identity or the word reversal exactly on the LowWordFirst branch. R4.3: each typed accessor calls the getter of its width, decodes with the byte order its flag selects and WithByteOrder variants fall back to the default order iff the argument is 0. R4.8 a float obtained from math.Float32frombits/Float64frombits reaches the caller without a conversion through a float type of another width (such a detour quiets signalling NaNs); other numerical identity of decoded floats is not decided. R4.5 no access path, including Field.ExtractFrom, writes payload-derived memory or keeps decoder state (C13 effect analysis). R4.6 every AsRegisters hands (payload field, request start address) to NewRegisters unchanged. R4.5 is also rooted at the builder's extraction loop (the configuration setter must not be called on the shared Registers while fields are extracted). R4.7 the sub-register accessors (bit/byte results, no order parameter) reach nothing that reads the ByteOrder field of Registers.")
 }
 
 // ctorInstance analyses constructor ctor with symbolic parameters and returns the value of
@@ -930,7 +930,10 @@ func checkC04(c *Ctx, r *Report) {
 	}
 	r.assumption("Registers values are only created by NewRegisters (its fields are unexported; checked: no other function of the package stores to startAddress/endAddress/data)")
 	r.assumption("slice lengths are below 2^31; int is 64 bits wide")
-	r.assumption("float decoding (math.Float32frombits) is exact; numerical identity of floats is not decided")
+	// R4.8: a decoded float is handed on without a detour through a float type of another width
+	floatBitIdentity(c, r, "R4.8", c.allFuncs("packet", ""))
+	r.floor("R4.8", 4)
+	r.assumption("math.Float32frombits / math.Float64frombits are bit-exact (standard library); R4.8 decides only that no float-width conversion lies between them and the caller, other float arithmetic on decoded values is not looked for")
 }
 
 func init() {
@@ -941,6 +944,9 @@ func init() {
 		r.controls["C04/R4.W-wrap"] = fired["wrapGetter:wrap"]
 		r.controls["C04/R4.2-reversed-layout"] = fired["badLayout:layout"]
 		r.controls["C04/R4.4-spurious-error"] = fired["spurious:spurious-error"]
+		tmp := newReport(r.Prop, r.Tier)
+		_, det := floatBitIdentity(c, tmp, "R4.8", c.allFuncs("c04"))
+		r.controls["C04/R4.8-float-width-detour"] = det
 	}
 }
 
